@@ -4,7 +4,10 @@
 PKG=$1; TEST=$2; NAME=$3; REPO=${4:-${VERIF_REPO:-/repo}}
 export GOFLAGS=-mod=mod GOPROXY=off GOSUMDB=off GOTOOLCHAIN=local
 W=$(mktemp -d /tmp/vreplay.XXXXXX); trap 'rm -rf $W' EXIT
+COMMON=$(dirname $TEST)/zz_conf_common_test.go
+EXTRA=""
+if [ -f "$COMMON" ] && [ "$COMMON" != "$TEST" ]; then EXTRA=",\"$REPO/$PKG/zz_verif_conf_common_test.go\":\"$COMMON\""; fi
 cat > $W/ov.json <<J
-{"Replace":{"$REPO/$PKG/zz_verif_harness_test.go":"/verif/harness/zz_verif_harness_test.go","$REPO/$PKG/zz_verif_case_test.go":"$TEST"}}
+{"Replace":{"$REPO/$PKG/zz_verif_harness_test.go":"/verif/harness/zz_verif_harness_test.go","$REPO/$PKG/zz_verif_case_test.go":"$TEST"$EXTRA}}
 J
 cd $REPO && go test -overlay $W/ov.json -vet=off -count=1 -timeout 120s -run "^$NAME\$" -v ./$PKG/ 2>&1
